@@ -52,6 +52,15 @@ def replay_known(prop, header, sr):
                 still = repr(ra.get("state")) != repr(rb.get("state")) and not ra["errs"] and not rb["errs"]
             except Exception:
                 still = None
+        elif w.get("kind") == "h1-twin-prefix" and header:
+            # the witness and its twin grammar must consume the same prefix of the input (the values differ in shape)
+            try:
+                il, ml = h1.run_single(header, w["case"])
+                il2, ml2 = h1.run_single(header, w["twin"])
+                ra, rb = core.parse_result(il), core.parse_result(il2)
+                still = (ra["kind"], bool(ra.get("errs")), ra.get("off")) != (rb["kind"], bool(rb.get("errs")), rb.get("off"))
+            except Exception:
+                still = None
         elif w.get("kind") == "h1-twin" and header:
             try:
                 il, ml = h1.run_single(header, w["case"])
